@@ -1,3 +1,5 @@
+#!/bin/sh
+# final confidence runs on the committed tree: a quick sweep over fresh seeds, then the thorough tier of the modules changed last
 cd "$(dirname "$0")/.."
-sh tools/seed_sweep.sh 900 909 quick 8
-sh tools/thorough_all.sh 5 C02 C03 C05 C06 C10 C11 C12 C13 C15 C16 C18 C20
+sh tools/seed_sweep.sh ${1:-1100} ${2:-1109} quick 6
+sh tools/thorough_all.sh ${3:-8} C02 C12 C13 C11 C03 C10 C01
